@@ -173,7 +173,42 @@ def extract_functions(cc, cflags, tree, header, workdir):
     if rc != 0 or not os.path.exists(aux):
         return None, out
     with open(aux, errors='replace') as f:
-        return parse_aux(f.read(), os.path.join(tree, 'include', 'cstl')), out
+        res = parse_aux(f.read(), os.path.join(tree, 'include', 'cstl'))
+    # -aux-info lists functions only: the data objects the headers declare extern (cstl_string_nul, ...) are taken
+    # from the preprocessed text; they are carried with a leading '&' (their address goes into the table)
+    rc2, pre = _run([cc] + cflags + ['-O0', '-I' + os.path.join(tree, 'include'), '-E', src])
+    if rc2 == 0:
+        for name, fl, ln in parse_extern_data(pre, os.path.join(tree, 'include', 'cstl')):
+            res.append(('&' + name, False, False, fl, ln))
+    return res, out
+
+
+_LM_RE = re.compile(r'^#\s+(\d+)\s+"([^"]*)"')
+_EXT_RE = re.compile(r'\bextern\b([^;{}()]*?)\b([A-Za-z_]\w*)\s*(?:\[[^\]]*\]\s*)*;')
+
+
+def parse_extern_data(pre, incdir):
+    """-> [(name, file, line)] of 'extern <type> name;' declarations (no parentheses: not functions) from incdir."""
+    incdir = os.path.realpath(incdir) + os.sep
+    cur, ln, mine = '', 0, []
+    for line in pre.splitlines():
+        m = _LM_RE.match(line)
+        if m:
+            ln, cur = int(m.group(1)), m.group(2)
+            continue
+        if cur and os.path.realpath(cur).startswith(incdir):
+            mine.append((line, os.path.basename(cur), ln))
+        ln += 1
+    res, seen = [], set()
+    text = '\n'.join(l for l, _f, _n in mine)
+    for m in _EXT_RE.finditer(text):
+        name = m.group(2)
+        if name in seen or 'typedef' in m.group(1):
+            continue
+        seen.add(name)
+        lineno = text.count('\n', 0, m.start())
+        res.append((name, mine[lineno][1], mine[lineno][2]))
+    return res
 
 # ---------------------------------------------------------------- program generation
 class Program(object):
@@ -202,7 +237,10 @@ def gen_source(headers, funcs, usage, tu, tus, config):
         L.append('/* the address of every function the included headers declare or define */')
         L.append('void (*%s[])(void) = {' % tab)
         for f in funcs:
-            L.append('    (void (*)(void))%s,' % f)
+            if f.startswith('&'):       # a data object: its address
+                L.append('    (void (*)(void))(unsigned long)%s,' % f)
+            else:
+                L.append('    (void (*)(void))%s,' % f)
         L.append('    0')
         L.append('};')
         L.append('')
@@ -535,7 +573,8 @@ def run(ctx):
 
         # ---- 4 (cheap, done first). symbol tables
         so_syms, a_syms, nmdiag = defined_symbols(tree)
-        externs = sorted(n for n, v in allf.items() if not v[0])
+        externs = sorted(n.lstrip('&') for n, v in allf.items() if not v[0])
+        bump('extern_data_objects_in_headers', sum(1 for n in allf if n.startswith('&')))
         missing_so = [n for n in externs if n not in so_syms]
         missing_a = [n for n in externs if n not in a_syms]
         bump('symbols_checked_so', len(externs))
@@ -628,8 +667,9 @@ def run(ctx):
             if missing_a:
                 where.append('libcstl.a')
             n0 = names[0]
-            msg = ('%d function(s) declared non-static by public headers are not provided by %s: %s (first: %s declared at %s:%d)'
-                   % (len(names), ' and '.join(where), ', '.join(names[:6]), n0, allf[n0][2], allf[n0][3]))
+            d0 = allf.get(n0) or allf.get('&' + n0)
+            msg = ('%d function(s) / object(s) declared extern by public headers are not provided by %s: %s (first: %s declared at %s:%d)'
+                   % (len(names), ' and '.join(where), ', '.join(names[:6]), n0, d0[2], d0[3]))
             if failures:
                 msg += '; %d client programs also fail' % len(failures)
             outp = 'missing from libcstl.so: %s\nmissing from libcstl.a: %s\n%s' % (missing_so, missing_a, nmdiag)
